@@ -13,6 +13,12 @@ defined per registry), the result of every route (in_base first and second call,
 in_cgs/in_mks, get_base_equivalent, in_base of the result) carries a unit whose data is what its
 printed expression resolves to in the QUANTITY's registry, denotes the same physical quantity there,
 converts back to the original numbers and is unchanged by `.to(str(units))`.
+Registry histories (`c10_registry_history`): over seeded histories of accepted and REJECTED constructions
+(fresh names, names registered earlier, built-in names), memoising look-ups, overrides and look-ups by
+name / by object: a construction that raised leaves `unit_system_registry` and every registered object
+untouched; every registered system is registered under its own name with base units of their slots'
+dimensions; an accepted construction is registered at once, touches no other entry and is usable by name
+immediately; conversions by name into every (re)registered system obey the oracle above.
 
 Correspondence: the compiled Lean model (`drv_c10`) is run on the same inputs (the live
 `units_map` travels with every request) and must give the same unit, value, exception class and
@@ -28,8 +34,9 @@ import gen
 
 # The chunked kernel obligations (UnytProofs/C10Tab/*) are imported by these two modules, whose
 # combined theorems depend on every chunk theorem (so `#print axioms` covers them transitively).
-QUICK_MODULES = ["UnytProofs.C10", "UnytProofs.Real.C10Real", "UnytProofs.C10Registry", "UnytProofs.C10RegistryTab"]
-THOROUGH_MODULES = ["UnytProofs.C10", "UnytProofs.Real.C10Real", "UnytProofs.C10Registry", "UnytProofs.C10RegistryTab", "UnytProofs.C10Pre", "UnytProofs.Real.C10RealInit"]
+QUICK_MODULES = ["UnytProofs.C10", "UnytProofs.Real.C10Real", "UnytProofs.C10Registry", "UnytProofs.C10RegistryTab", "UnytProofs.C10RegistryWF"]
+THOROUGH_MODULES = ["UnytProofs.C10", "UnytProofs.Real.C10Real", "UnytProofs.C10Registry", "UnytProofs.C10RegistryTab", "UnytProofs.C10RegistryWF", "UnytProofs.C10Pre", "UnytProofs.Real.C10RealInit",
+                    "UnytProofs.Real.C10RealRegistry"]
 
 ORACLE = r'''
 import math, sys, warnings
@@ -650,7 +657,7 @@ def run(tier, seed):
             return expr_to_wire(v.value * v.units.expr)
         return expr_to_wire(parse_unyt_expr(str(v)))
 
-    nhist = 36 if tier == "quick" else 300
+    nhist = 24 if tier == "quick" else 300
     hist_lines, hist_expect = [], []
     start_items = list(unit_system_registry.items())
     n0 = len(start_items)
@@ -1525,7 +1532,8 @@ def run(tier, seed):
             "seeded compounds (incl. EM units), seeded user-defined systems (random base units incl. prefixed, offset and quantity-valued ones, "
             "invalid ones, overrides) x units, code-unit registries, quantities of registries that re-value or re-define the base/declared symbols of "
             "the target system (built-in, user systems with and without a registry of their own, code systems of another registry) x every route; distinct = distinct (kind, system, unit) or (getitem, system, dimension); "
-            "every case is a conversion into a system's base units or a look-up/synthesis/validation step of one")
+            "every case is a conversion into a system's base units or a look-up/synthesis/validation step of one; "
+            "registry histories (accepted/rejected constructions under fresh, re-used and built-in names, getitem, setitem, look-up by name and by object): one case per history")
     chk.assumptions = [
         "the parser (parse_unyt_expr) is outside the model: expressions travel parsed",
         "the process-wide lru_cache on _check_em_conversion is not modelled (generated histories apply overrides before conversions)",
